@@ -29,6 +29,10 @@ Definition fields_ok (i : instr) : Prop :=
   | ILdStPair opc mode load _ rt2 rn rt =>
       (opc = 0 \/ opc = 2 \/ (opc = 1 /\ load = true /\ mode <> PNoAlloc)) /\ r32 rt2 /\ r32 rn /\ r32 rt
   | ILdStOrd size _ _ rn rt => 0 <= size < 4 /\ r32 rn /\ r32 rt
+  | ILdStOrdU _ _ _ _ _ => True
+  | IOrrImm sf n immr imms rn rd => bitmask_valid sf n imms = true /\ r32 rn /\ r32 rd
+  | INop => True
+  | IVLdStImm _ _ _ _ _ _ _ | IVLdStReg _ _ _ _ _ _ _ | IVLdStPair _ _ _ _ _ _ _ => True
   | IBImm _ _ => True
   | IBReg opc rn => (opc = 0 \/ opc = 1 \/ opc = 2) /\ r32 rn
   | IBCond cond _ => 0 <= cond < 16
@@ -59,6 +63,9 @@ Proof.
     repeat match goal with |- _ /\ _ => split end; try bl; try exact I;
     try (eapply proj1; bl); try (eapply proj2; bl).
   all: try (apply negb_false_iff; assumption).
+  all: try assumption.
+  all: try reflexivity.
+  all: try lia.
   all: try match goal with H : (_ && bitb _ 14) = true |- _ => apply andb_prop in H; destruct H as [_ H]; apply option_bit1; exact H end.
   all: try (blh 15 10; match goal with w : Z |- _ => destruct (bitb w 31) end; cbn [dsize negb andb] in *; lia).
   all: try (blh 12 10; lia).
@@ -86,16 +93,60 @@ Definition is_subs (i : instr) : bool :=
   | _ => false
   end.
 
+(* SIMD&FP register loads/stores: specified (Isa/A64.v), mirrored, tied and compared on sampled states per run,
+   but outside [sim_all]: the embedding [emb] of the theorems does not speak about V0..V31 *)
+Definition is_vector (i : instr) : bool :=
+  match i with IVLdStImm _ _ _ _ _ _ _ | IVLdStReg _ _ _ _ _ _ _ | IVLdStPair _ _ _ _ _ _ _ => true | _ => false end.
+
 (* a form the lifter rejects satisfies [sim] vacuously *)
 Lemma sim_rejected addr i e : lift addr i = Err e -> sim addr i.
 Proof. intros H s st ops succs s' _ _ _ _ _ Hl _. rewrite H in Hl. discriminate. Qed.
 
-Theorem sim_all addr i : fields_ok i -> sim_c (is_subs i) addr i.
+(* C6.2.229 NOP / PRFM / PRFUM *)
+Theorem nop_sim addr : sim addr INop.
+Proof.
+  intros s st ops succs s' Hw Hpc Ha He _ Hl Hs. inversion Hs; subst s'; clear Hs.
+  unfold lift in Hl. cbn [operands_of dispatch terminating bind fst snd] in Hl. inversion Hl; subst ops succs; clear Hl.
+  apply (finish_fall addr s st s (ONop None) st); try assumption; reflexivity.
+Qed.
+
+(* the specification's bitmask immediate is a value of the operation's width *)
+Lemma decode_bit_mask_range N n immr imms : (N = 64 \/ N = 32) -> 0 <= decode_bit_mask N n immr imms < 2 ^ N.
+Proof. intros HN. unfold decode_bit_mask. apply Z.mod_pos_bound. destruct HN as [-> | ->]; lia. Qed.
+
+(* C6.2.239 ORR (immediate): only MOV (bitmask immediate) is accepted *)
+Theorem orr_imm_sim addr sf n immr imms rn rd : 0 <= rn < 32 -> 0 <= rd < 32 -> sim addr (IOrrImm sf n immr imms rn rd).
+Proof.
+  intros Hn Hd.
+  destruct ((rn =? 31) && negb (move_wide_preferred sf n imms immr)) eqn:E.
+  2: { apply (sim_rejected addr _ ECustom). unfold lift. cbn [operands_of]. rewrite E. reflexivity. }
+  apply andb_prop in E as [E1 E2]. apply Z.eqb_eq in E1. subst rn.
+  intros s st ops succs s' Hw Hpc Ha He _ Hl Hs.
+  destruct (xzr_xsp_range sf rd Hd) as [_ Hrd].
+  assert (HN : dsize sf = 64 \/ dsize sf = 32) by (destruct sf; cbn; auto).
+  pose proof (decode_bit_mask_range (dsize sf) n immr imms HN) as Hr.
+  assert (Hz : Xw s 31 (dsize sf) = 0) by (unfold Xw, X; change (31 =? 31) with true; cbv iota; apply Z.mod_0_l; destruct sf; cbn; lia).
+  cbn [a64step] in Hs. rewrite Hz, Z.lor_0_l in Hs. inversion Hs; subst s'; clear Hs.
+  unfold lift in Hl. cbn [operands_of] in Hl. change (31 =? 31) with true in Hl. rewrite E2 in Hl. cbn [andb dispatch terminating] in Hl.
+  assert (L1 : loads s (imm_opnd sf (decode_bit_mask (dsize sf) n immr imms) None)
+                     (reg_bits (xreg_sp sf rd)) (reg_bits (xreg_sp sf rd)) (decode_bit_mask (dsize sf) n immr imms)).
+  { rewrite reg_bits_sp. unfold imm_opnd. destruct sf; cbn [dsize] in *.
+    - replace (decode_bit_mask 64 n immr imms) with (U 64 (decode_bit_mask 64 n immr imms)) at 2 by (unfold U; apply Z.mod_small; lia).
+      apply loads_imm64.
+    - replace (decode_bit_mask 32 n immr imms) with (U 32 (decode_bit_mask 32 n immr imms)) at 2 by (unfold U; apply Z.mod_small; lia).
+      apply loads_imm32. }
+  destruct (b_mov_sim s st _ _ _ Hw He Hrd L1) as (op & st' & B1 & B2 & B3).
+  rewrite B1 in Hl. cbn [bind fst snd] in Hl. inversion Hl; subst ops succs; clear Hl.
+  rewrite areg_write_sp in B3.
+  apply (finish_fall addr s st _ op st'); try assumption. apply apc_setSPorX.
+Qed.
+
+Theorem sim_all addr i : fields_ok i -> is_vector i = false -> sim_c (is_subs i) addr i.
 Proof.
   destruct i as [sf sub setflags sh imm12 rn rd|sf sub setflags k rm imm6 rn rd|sf sub setflags k rm imm3 rn rd
                 |sf k rm imm6 rn rd|sf opc hw imm16 rd|size opc mode scaled imm rn rt|size opc rm option sb rn rt
-                |opc imm19 rt|opc mode load imm7 rt2 rn rt|size load o0 rn rt|link imm26|opc rn|cond imm19|sf nz imm19 rt|b5 nz b40 imm14 rt];
-    cbn [fields_ok is_subs]; unfold r32.
+                |opc imm19 rt|opc mode load imm7 rt2 rn rt|size load o0 rn rt|size load o0 rn rt|sf n immr imms rn rd| |scale load mode scaled imm rn rt|scale load rm option sb rn rt|opc mode load imm7 rt2 rn rt|link imm26|opc rn|cond imm19|sf nz imm19 rt|b5 nz b40 imm14 rt];
+    cbn [fields_ok is_subs is_vector]; unfold r32; intros Hf Hv; try discriminate Hv; revert Hf.
   - intros (H1 & H2 & H3). destruct setflags.
     + rewrite andb_true_r. apply addsubs_imm_simc; assumption.
     + rewrite andb_false_r. apply addsub_imm_sim; assumption.
@@ -128,6 +179,10 @@ Proof.
     + destruct load; [apply ldp_sim|apply stp_sim]; auto.
     + apply ldpsw_sim; assumption.
   - intros (H1 & H2 & H3). apply ldst_ord_sim; assumption.
+  - (* (1) fields not all ones: CONSTRAINED UNPREDICTABLE, nothing to compare *)
+    intros _ s st ops succs s' _ _ _ _ _ _ Hs. discriminate Hs.
+  - intros (H1 & H2 & H3). apply orr_imm_sim; assumption.
+  - intros _. apply nop_sim.
   - intros _. destruct link; [apply bl_sim|apply b_sim].
   - intros (H1 & H2). destruct H1 as [-> | [-> | ->]]; [apply br_sim|apply blr_sim|apply ret_sim]; assumption.
   - intros H. apply bcond_sim; assumption.
@@ -142,12 +197,12 @@ Qed.
    the DUMPED IL in Exec/Sem.v reaches an IL state representing the architecture's result state at the
    architecture's next pc -- for SUBS with the carry flag inverted (known finding). *)
 Theorem c03_end_to_end w i addr g succs :
-  decode w = Some i -> syntactic_tie addr i g succs = true ->
+  decode w = Some i -> is_vector i = false -> syntactic_tie addr i g succs = true ->
   forall s st s', wf s -> apc s = addr -> addr + 4 < 2 ^ 64 -> emb s st -> mapped st (footprint i s) ->
     a64step i s = Done s' ->
     exists st', run_lifted g succs st = Ok (st', apc s') /\ emb (if is_subs i then flipC s' else s') st'.
 Proof.
-  intros Hd Ht s st s' Hw Hpc Ha He Hm Hs.
+  intros Hd Hv Ht s st s' Hw Hpc Ha He Hm Hs.
   destruct (syntactic_tie_sound _ _ _ _ Ht) as (ops & Hl & ->).
-  exact (sim_all addr i (decode_fields w i Hd) s st ops succs s' Hw Hpc Ha He Hm Hl Hs).
+  exact (sim_all addr i (decode_fields w i Hd) Hv s st ops succs s' Hw Hpc Ha He Hm Hl Hs).
 Qed.
